@@ -108,6 +108,40 @@ class AggWorld(object):
     self.rules_mtime = os.path.getmtime(self.rules_path) if os.path.exists(self.rules_path) else 0.0
     self.pending_reload = None
     self.r.callLater(10.0, self.ref_rules_tick)
+    # I/O-error seam on the rules file (carbon.aggregator.rules uses the builtin open())
+    import errno
+    crules = w.rules_mod
+    self.rules_fault_armed = None
+    self.rules_fault_fired_at = None
+    self.cut_at = None
+    path = self.rules_path
+
+    class FailingLines(object):
+      def __init__(self, f):
+        self.f, self.n = f, 0
+
+      def __iter__(self):
+        return self
+
+      def __next__(self):
+        if self.n >= 1:
+          self.f.close()
+          raise IOError(errno.EIO, 'Input/output error (injected)', path)
+        self.n += 1
+        return next(self.f)
+
+    def sim_open(name, *a, **kw):
+      f = open(name, *a, **kw)
+      if name == path and me.rules_fault_armed:
+        mode, me.rules_fault_armed = me.rules_fault_armed, None
+        me.rules_fault_fired_at = me.r.seconds()
+        me.ctx.fault('rules_file_read_error_' + mode)
+        if mode == 'open':
+          f.close()
+          raise IOError(errno.EIO, 'Input/output error (injected)', path)
+        return FailingLines(f)
+      return f
+    crules.open = sim_open
 
   def ref_rules_tick(self):
     import os
@@ -115,9 +149,33 @@ class AggWorld(object):
       m = os.path.getmtime(self.rules_path)
       if m > self.rules_mtime:
         self.rules_mtime = m
-        with open(self.rules_path, encoding='utf-8') as f:
-          self.pending_reload = (self.r.seconds(), f.read())
+        if self.rules_fault_armed or self.rules_fault_fired_at == self.r.seconds():
+          # this re-read fails: rules and buffers stay as they are.  What a daemon does at
+          # its next attempt (10 s on) is its own business -- the run is judged up to then
+          self.cut_at = self.r.seconds() + 10.0 - 1e-3
+          self.ctx.probe('reload_failed_rules_and_buffers_must_stay')
+        else:
+          with open(self.rules_path, encoding='utf-8') as f:
+            self.pending_reload = (self.r.seconds(), f.read())
     self.r.callLater(10.0, self.ref_rules_tick)
+
+  def check_at_cut(self):
+    """After a failed re-read nothing may have been discarded: every value received and not
+    yet emitted is still buffered."""
+    bm = self.w.buffers_mod.BufferManager
+    for (series, interval), vals in sorted(self.R.items()):
+      n = self.emitted_n.get((series, interval), 0)
+      if n == len(vals):
+        continue
+      buf = bm.buffers.get(series)
+      ib = buf.interval_buffers.get(interval) if buf is not None else None
+      held = list(ib.values) if ib is not None else None
+      want = vals[n:]
+      if held is None or held[-len(want):] != want:
+        self.ctx.violation('C08', 'buffered-values-discarded-by-failed-reload', 'rules',
+                           '%r interval %r: values %r were received and not yet emitted when a re-read '
+                           'of the rules file failed; the buffer now holds %r' % (
+                             series, interval, want[:8], held))
 
   def apply_pending_reload(self):
     if self.pending_reload is not None and self.r.seconds() > self.pending_reload[0] - 1e-9:
@@ -293,13 +351,33 @@ class AggWorld(object):
           ts = float(int(ts))
         self.feed(op[1], ts, op[4])
       elif op[0] == 'advance':
-        r.advance(op[1])
+        # in slices ending at the 10 s reload instants, so that a failed re-read (which ends
+        # the judged period 10 s later) is noticed before the clock runs past that end
+        t_end = r.seconds() + op[1]
+        while True:
+          if self.cut_at is not None:
+            t_end = min(t_end, self.cut_at)
+          now = r.seconds()
+          if now >= t_end - 1e-9:
+            r.advance(0.0)
+            break
+          nxt = (int((now - 1000000.0) / 10.0 + 1e-9) + 1) * 10.0 + 1000000.0
+          r.advance(min(t_end, nxt) - now)
         if op[1] > 100:
           ctx.fault('clock_stall')
+      elif op[0] == 'rules_fault':
+        self.rules_fault_armed = op[1]
       elif op[0] == 'file':
         from . import boot
         boot.write_file(op[1], op[2], int(r.seconds()) + 1)
         ctx.fault('rules_file_rewritten')
+      if self.cut_at is not None and r.seconds() >= self.cut_at - 1e-9:
+        break
+    if self.cut_at is not None:
+      self.check_at_cut()
+      ctx.probe('emissions', self.emissions)
+      self.finish_cb('done', {'sim_seconds': r.seconds() - 1000000.0, 'emissions': self.emissions})
+      return
     # quiescence: no input for (MAX+2)*freq + one tick -> everything released
     maxfreq = max([ru['freq'] for ru in self.rules] + [60])
     r.advance((self.maxint + 3) * maxfreq + maxfreq + 1)
